@@ -1,4 +1,9 @@
 import JunoModel.C06.ProofsRun
+import JunoModel.C06.ProofsStore
+import JunoModel.C06.ProofsStatus
+import JunoModel.C06.ProofsClasses
+import JunoModel.C06.ProofsRound
+import JunoModel.C06.ProofsStale
 /-!
 C06 — property theorems (obligations). Lemmas, statements for arbitrary code variants and facts
 that merely restate the model are in `Proofs*.lean`; here every theorem is either about the code
@@ -592,6 +597,337 @@ theorem feed_len_ids_lose_a_subscriber :
     (Feed.run .fresh Feed.init ops).2 =
       [.handle 0, .handle 1, .ok, .handle 2, .ok, .val 7, .val 7, .ok, .ok, .val 8] := by
   decide
+
+/-! ## round 4: the protocol-version gate of `Store`, and the outcome of every delivery
+
+`verifyBlockSuccession` (block_ops.go:30) starts with `core.CheckBlockVersion`; `ModelStore.lean`
+transcribes `ParseBlockVersion` / `CheckBlockVersion` on byte strings and writes the delivery out with
+the version as an input (`Impl.deliverV`). -/
+
+/-- The delivery with a version IS a delivery of the machine all theorems above are about: a block
+whose version is refused is dropped exactly like a delivery `storeTask` finds cancelled. Hence
+`stored_verified_and_extends`, `head_moves_back_only_by_revert`, `run_accepted_asFound`, … hold with
+versions as additional inputs of the events. -/
+theorem delivery_with_version_is_a_step (cfg : Cfg) (s : Impl) (req : Nat) (b : Blk) (ver : List UInt8)
+    (c : Bool) :
+    s.deliverV cfg req b ver c = s.step cfg (.deliver req b (c || !checkBlockVersion ver)) :=
+  deliverV_eq_step cfg s req b ver c
+
+/-- A block whose protocol version `CheckBlockVersion` refuses (above 0.14.x, unparsable, or longer
+than 31 bytes) changes NOTHING, for every state — however valid it is otherwise, and also when its
+parent hash does not match the head: the version is checked before number and parent, so such a
+block never starts a revert task either. -/
+theorem unsupported_version_never_stored (cfg : Cfg) (s : Impl) (req : Nat) (b : Blk) (ver : List UInt8)
+    (c : Bool) (hv : checkBlockVersion ver = false) :
+    (s.deliverV cfg req b ver c).1.node = s.node ∧ (s.deliverV cfg req b ver c).2 = [] ∧
+    (s.deliverV cfg req b ver c).1.task = s.task := by
+  rw [deliverV_eq_step, hv]
+  cases ht : s.task with
+  | some _ => simp [Impl.step, ht]
+  | none =>
+    by_cases hok : b.ok = true
+    · simp [Impl.step, ht, hok]
+    · simp [Impl.step, ht, hok]
+
+/-- … and a stored block has a supported version, passed the sanity check, was not cancelled, and
+extends the head with a true state-root claim. -/
+theorem stored_block_has_supported_version (cfg : Cfg) (s : Impl) (req : Nat) (b : Blk) (ver : List UInt8)
+    (c : Bool) (n h : Nat) (hs : Obs.stored n h ∈ (s.deliverV cfg req b ver c).2) :
+    checkBlockVersion ver = true ∧ c = false ∧ b.ok = true ∧ b.num = n ∧ b.hash = h ∧
+      b.num = nextHeight s.node.chain ∧ b.parent = expParent s.node.chain ∧
+      b.root = rootStep (stateRoot s.node.chain) b.diff := by
+  rw [deliverV_eq_step] at hs
+  obtain ⟨req', b', he, hok, hn, hh, hnext, hpar, hroot, _⟩ := stored_verified_and_extends cfg s _ n h hs
+  injection he with _ hb hc
+  subst hb
+  cases c with
+  | true => simp at hc
+  | false =>
+    cases hv : checkBlockVersion ver with
+    | false => simp [hv] at hc
+    | true => exact ⟨rfl, rfl, hok, hn, hh, hnext, hpar, hroot⟩
+
+/-- What one delivery does, by class (what `Persisted` receives), with no revert task running:
+`stored` — the block becomes the head and is announced; `parent-mismatch` — nothing changes and
+`revertTask(block.Number-1)` starts; every other class (failed sanity check, cancelled, unsupported
+version, wrong number, wrong state root) — nothing changes and no task starts. -/
+theorem delivery_outcome_classes (cfg : Cfg) (s : Impl) (req : Nat) (b : Blk) (ver : List UInt8) (c : Bool)
+    (ht : s.task = none) :
+    match deliverClass ver s.node.chain b c with
+    | .stored =>
+        (s.deliverV cfg req b ver c).1.node.chain = b :: s.node.chain ∧
+        Obs.stored b.num b.hash ∈ (s.deliverV cfg req b ver c).2 ∧
+        (s.deliverV cfg req b ver c).1.task = none
+    | .parentMismatch =>
+        (s.deliverV cfg req b ver c).1.node = s.node ∧ (s.deliverV cfg req b ver c).2 = [] ∧
+        (s.deliverV cfg req b ver c).1.task = some (mismatchLpv cfg b)
+    | _ =>
+        (s.deliverV cfg req b ver c).1.node = s.node ∧ (s.deliverV cfg req b ver c).2 = [] ∧
+        (s.deliverV cfg req b ver c).1.task = none :=
+  deliverClass_spec cfg s req b ver c ht
+
+/-- `CheckBlockVersion` accepts exactly the strings that parse to `0.minor.patch` with `minor ≤ 14`
+(`core.LatestVer` = 0.14.1; the patch number does not count). -/
+theorem version_gate_decision (v : List UInt8) :
+    checkBlockVersion v = true ↔
+      ∃ major minor patch, parseBlockVersion v = .ok major minor patch ∧ major = 0 ∧ minor ≤ 14 :=
+  checkBlockVersion_iff v
+
+/-- `x.y.z` (dot-free parts, at most 31 bytes) is read part by part with `strconv.ParseUint(·, 10, 64)`. -/
+theorem version_string_three_parts (x y z : List UInt8)
+    (hx : ∀ b ∈ x, b ≠ 46) (hy : ∀ b ∈ y, b ≠ 46) (hz : ∀ b ∈ z, b ≠ 46)
+    (hlen : (x ++ 46 :: (y ++ 46 :: z)).length ≤ 31) :
+    parseBlockVersion (x ++ 46 :: (y ++ 46 :: z)) =
+      match parseUint64? x, parseUint64? y, parseUint64? z with
+      | some a, some b, some c => .ok a b c
+      | _, _, _ => .badNumber :=
+  parse_three_parts x y z hx hy hz hlen
+
+/-- a fourth part is never read: `0.14.1.anything` is a supported version -/
+theorem version_fourth_part_not_read (x y z w : List UInt8)
+    (hx : ∀ b ∈ x, b ≠ 46) (hy : ∀ b ∈ y, b ≠ 46) (hz : ∀ b ∈ z, b ≠ 46)
+    (hlen : (x ++ 46 :: (y ++ 46 :: (z ++ 46 :: w))).length ≤ 31) :
+    parseBlockVersion (x ++ 46 :: (y ++ 46 :: (z ++ 46 :: w))) =
+      parseBlockVersion (x ++ 46 :: (y ++ 46 :: z)) :=
+  parse_ignores_fourth_part x y z w hx hy hz hlen
+
+/-- more than 31 bytes: refused whatever the string says (the hash commits to the string as ONE field
+element) -/
+theorem version_longer_than_31_bytes_refused (v : List UInt8) (h : 31 < v.length) :
+    checkBlockVersion v = false :=
+  long_version_refused v h
+
+-- non-vacuity / boundaries of the gate: "0.14.1", "0.14.99", "0.14", "", "0.14.1.x" are supported;
+-- "0.15.0", "1.0.0", "00.015.1", "+0.14.0", "0..1", "0.14.", 32 bytes are not
+example :
+    checkBlockVersion [48, 46, 49, 52, 46, 49] = true ∧
+    checkBlockVersion [48, 46, 49, 52, 46, 57, 57] = true ∧
+    checkBlockVersion [48, 46, 49, 52] = true ∧
+    checkBlockVersion [] = true ∧
+    checkBlockVersion [48, 46, 49, 52, 46, 49, 46, 120] = true ∧
+    checkBlockVersion [48, 46, 49, 53, 46, 48] = false ∧
+    checkBlockVersion [49, 46, 48, 46, 48] = false ∧
+    checkBlockVersion [48, 48, 46, 48, 49, 53, 46, 49] = false ∧
+    checkBlockVersion [43, 48, 46, 49, 52, 46, 48] = false ∧
+    checkBlockVersion [48, 46, 46, 49] = false ∧
+    checkBlockVersion [48, 46, 49, 52, 46] = false ∧
+    checkBlockVersion (List.replicate 32 48) = false ∧
+    parseBlockVersion (List.replicate 31 48) = .ok 0 0 0 := by
+  refine ⟨by decide, by decide, by decide, by decide, by decide, by decide, by decide, by decide,
+    by decide, by decide, by decide, by decide, by decide⟩
+
+-- an unsupported version with a MISMATCHING parent: the code resets the streams (no revert task);
+-- the same block with a supported version starts `revertTask(block.Number-1)`; every class occurs
+example :
+    let g : Blk := ⟨0, 1, 0, true, 0, 0⟩
+    let x1 : Blk := ⟨1, 2, 1, true, 0, 0⟩
+    let z2 : Blk := ⟨2, 40, 99, true, 0, 0⟩
+    let y2 : Blk := ⟨2, 30, 2, true, 0, 0⟩
+    let v15 : List UInt8 := [48, 46, 49, 53, 46, 48]
+    let v14 : List UInt8 := [48, 46, 49, 52, 46, 49]
+    ((Impl.init [x1, g]).deliverV Cfg.asFound 2 z2 v15 false).1.task = none ∧
+    ((Impl.init [x1, g]).deliverV Cfg.asFound 2 z2 v14 false).1.task = some 1 ∧
+    deliverClass v15 [x1, g] z2 false = .badVersion ∧
+    deliverClass v14 [x1, g] z2 false = .parentMismatch ∧
+    deliverClass v14 [x1, g] y2 false = .stored ∧
+    deliverClass v14 [x1, g] y2 true = .cancelled ∧
+    deliverClass v14 [x1, g] { y2 with ok := false } false = .sanity ∧
+    deliverClass v14 [x1, g] { y2 with num := 3 } false = .badNumber ∧
+    deliverClass v14 [x1, g] { y2 with root := 7 } false = .rootMismatch ∧
+    ((Impl.init [x1, g]).deliverV Cfg.asFound 2 y2 v14 false).2 = [Obs.stored 2 30, Obs.newHead 2 30] ∧
+    ((Impl.init [x1, g]).deliverV Cfg.asFound 2 y2 v15 false).2 = [] := by
+  refine ⟨by decide, by decide, by decide, by decide, by decide, by decide, by decide, by decide,
+    by decide, by decide, by decide⟩
+
+/-! ## round 4: catch-up / tip-following mode and the status accessors (`ModelStatus.lean`) -/
+
+/-- "catch-up and tip-following modes": what `storeTask` stores and announces does not depend on the
+mode or on any of the status fields — for every status, every `GOMAXPROCS`, every outcome of the
+compare-and-swap, the chain-and-feeds part of `storeTask` is `onStored` (the function all theorems
+above are about); the status only decides whether the streams are reset afterwards, and a reset is an
+input (`cancelled` deliveries) of the machine. -/
+theorem store_task_ignores_the_mode (procs : Nat) (n : Node) (st : Status) (b : Blk) (cas : Bool) :
+    (storeTaskFull procs n st b cas).1 = (onStored n b).1 ∧
+    (storeTaskFull procs n st b cas).2.2.1 = (onStored n b).2 := ⟨rfl, rfl⟩
+
+/-- after the bookkeeping of a store (compare-and-swap undisturbed) `HighestBlockHeader()` is at or
+above the stored block: the node never reports a highest block below its own head right after storing -/
+theorem highest_header_covers_stored_block (procs : Nat) (st : Status) (b : Blk) :
+    ∃ h, (st.onStored procs b true).1.highest = some h ∧ b.num ≤ h.num :=
+  highest_covers_stored procs st b
+
+/-- the mode after a store is `isBehind` = "the highest known block is more than `maxWorkers()` above
+the stored one" (no wrap for block numbers below 2^64 - 16), and the streams are reset exactly when the
+mode changes -/
+theorem mode_switch_decision (procs : Nat) (st : Status) (b : Blk) (cas : Bool) (hd : Hdr)
+    (h : st.highest = some hd) (hnw : b.num + maxWorkers procs < U64) :
+    ((st.onStored procs b cas).1.catchUp = true ↔ hd.num > b.num + maxWorkers procs) ∧
+    ((st.onStored procs b cas).2 = true ↔ (st.catchUp = true ↔ ¬ hd.num > b.num + maxWorkers procs)) :=
+  mode_is_isBehind procs st b cas hd h hnw
+
+/-- while the source's head is unknown (pollLatest has not answered) the mode is left alone -/
+theorem mode_kept_while_head_unknown (procs : Nat) (st : Status) (b : Blk) (cas : Bool)
+    (h : st.highest = none) :
+    (st.onStored procs b cas).1.catchUp = st.catchUp ∧ (st.onStored procs b cas).2 = false :=
+  mode_kept_without_head procs st b cas h
+
+/-- `setupWorkers`: between 1 and 16 fetchers, exactly ONE in tip-following mode -/
+theorem fetcher_count_bounds (procs : Nat) (st : Status) (hp : 1 ≤ procs) :
+    1 ≤ numWorkers procs st ∧ numWorkers procs st ≤ 16 ∧ (st.catchUp = false → numWorkers procs st = 1) :=
+  numWorkers_bounds procs st hp
+
+/-- `StartingBlockHeader()`: storeTask caches the header when it stores the block numbered
+`startingBlockNumber`; before that the accessor answers from the database with exactly that block (and
+caches it), or fails -/
+theorem starting_header_is_the_starting_block (procs : Nat) (st : Status) :
+    (∀ (b : Blk) (cas : Bool), st.startNum = some b.num →
+      (st.onStored procs b cas).1.startHdr = some ⟨b.num, b.hash⟩) ∧
+    (∀ (c : Chain) (h : Hdr) (st' : Status), st.startHdr = none → st.startingHeader c = (.hdr h, st') →
+      ∃ b ∈ c, st.startNum = some b.num ∧ h = ⟨b.num, b.hash⟩ ∧ st'.startHdr = some h) :=
+  ⟨fun b cas h => starting_header_set_by_store procs st b cas h,
+   fun c h st' hn ha => starting_header_from_db st c h st' hn ha⟩
+
+/-- (witness) `block.Number + uint64(maxWorkers())` wraps for block numbers at 2^64 - 16 and above:
+a node AT the tip (highest = the block just stored) then decides it is behind and switches to
+catch-up mode. Harmless for the property (the mode only sets the number of fetchers). -/
+theorem mode_switch_wraps_near_2_64 :
+    let b : Blk := ⟨U64 - 1, 5, 4, true, 0, 0⟩
+    let st : Status := ⟨some 0, none, some ⟨U64 - 1, 5⟩, false⟩
+    (st.onStored 16 b true).1.catchUp = true ∧ (st.onStored 16 b true).2 = true ∧
+    (st.onStored 16 ⟨100, 5, 4, true, 0, 0⟩ true).1.catchUp = true ∧
+    (Status.onStored 16 ⟨some 0, none, some ⟨100, 5⟩, true⟩ ⟨100, 5, 4, true, 0, 0⟩ true).1.catchUp = false := by
+  refine ⟨by decide, by decide, by decide, by decide⟩
+
+-- non-vacuity: a run of the status machine: Run starts at height 5, block 5 is stored before
+-- pollLatest answered, pollLatest reports 30, blocks 6.. are stored in catch-up mode (4 fetchers),
+-- the node gets within 4 of the head and switches back; after Run nothing is reported
+example :
+    let s0 := Status.init.runStart [⟨4, 9, 8, true, 0, 0⟩]
+    let s1 := (s0.onStored 4 ⟨5, 77, 9, true, 0, 0⟩).1
+    let s2 := s1.poll ⟨30, 99⟩
+    let r3 := s2.onStored 4 ⟨6, 78, 77, true, 0, 0⟩
+    let r4 := r3.1.onStored 4 ⟨26, 79, 0, true, 0, 0⟩
+    s0.startNum = some 5 ∧ (s0.startingHeader [⟨4, 9, 8, true, 0, 0⟩]).1 = .errDb ∧
+    s1.startHdr = some ⟨5, 77⟩ ∧ s1.highest = some ⟨5, 77⟩ ∧ s1.catchUp = false ∧
+    r3 = (⟨some 5, some ⟨5, 77⟩, some ⟨30, 99⟩, true⟩, true) ∧ numWorkers 4 r3.1 = 4 ∧
+    r4 = (⟨some 5, some ⟨5, 77⟩, some ⟨30, 99⟩, false⟩, true) ∧ numWorkers 4 r4.1 = 1 ∧
+    (r4.1.runEnd.startingHeader []).1 = .errNotSet ∧ r4.1.runEnd.highest = none := by
+  refine ⟨by decide, by decide, by decide, by decide, by decide, by decide, by decide, by decide,
+    by decide, by decide, by decide⟩
+
+/-! ## round 4: the classes `BlockByNumber` hands to `Store` (`fetchUnknownClasses`, data_source.go) -/
+
+/-- When `fetchUnknownClasses` succeeds, `NewClasses` holds EXACTLY the classes the state diff
+mentions (classes of deployed contracts, declared Cairo-0 classes, declared Sierra classes) that the
+node's head state does not hold — each fetched once, each fetch successful; a class the state knows
+is never fetched. For every diff, every state, every behaviour of the feeder. -/
+theorem new_classes_are_exactly_the_unknown_ones (known fetchOk : Nat → Bool)
+    (deployed declaredV0 declaredV1 res : List Nat)
+    (h : fetchUnknownClasses known fetchOk deployed declaredV0 declaredV1 = .ok res) :
+    res.Nodup ∧
+    (∀ x, x ∈ res ↔ (x ∈ deployed ∨ x ∈ declaredV0 ∨ x ∈ declaredV1) ∧ known x = false) ∧
+    (∀ x ∈ res, fetchOk x = true) := by
+  obtain ⟨h1, h2, h3⟩ := fetchAll_ok known fetchOk _ [] res List.nodup_nil (by intro x hx; cases hx) h
+  refine ⟨h1, ?_, ?_⟩
+  · intro x
+    rw [h2 x]
+    simp only [List.not_mem_nil, false_or, List.mem_append, or_assoc]
+  · intro x hx
+    rcases h3 x hx with hx | hx
+    · cases hx
+    · exact hx
+
+/-- `BlockByNumber` fails (and the block never reaches the pipeline) only because the fetch of a
+class the diff mentions and the state lacks failed; and it succeeds whenever all those fetches do. -/
+theorem class_fetch_failure_is_the_only_failure (known fetchOk : Nat → Bool)
+    (deployed declaredV0 declaredV1 : List Nat) :
+    (∀ e, fetchUnknownClasses known fetchOk deployed declaredV0 declaredV1 = .error e →
+      (e ∈ deployed ∨ e ∈ declaredV0 ∨ e ∈ declaredV1) ∧ known e = false ∧ fetchOk e = false) ∧
+    ((∀ x, (x ∈ deployed ∨ x ∈ declaredV0 ∨ x ∈ declaredV1) → known x = false → fetchOk x = true) →
+      ∃ res, fetchUnknownClasses known fetchOk deployed declaredV0 declaredV1 = .ok res) := by
+  constructor
+  · intro e he
+    obtain ⟨h1, h2, h3⟩ := fetchAll_error known fetchOk _ [] e he
+    exact ⟨by simpa [List.mem_append, or_assoc] using h1, h2, h3⟩
+  · intro hall
+    exact fetchAll_succeeds known fetchOk _ [] (fun x hx => hall x (by simpa [List.mem_append, or_assoc] using hx))
+
+-- non-vacuity: class 7 deployed twice and declared, 8 known, 9 unknown; then 9's fetch fails
+example :
+    fetchUnknownClasses (fun h => h == 8) (fun _ => true) [7, 8, 7] [9] [7] = .ok [7, 9] ∧
+    fetchUnknownClasses (fun h => h == 8) (fun h => h != 9) [7, 8, 7] [9] [7] = .error 9 ∧
+    fetchUnknownClasses (fun _ => false) (fun _ => true) [] [] [] = .ok [] := by
+  refine ⟨rfl, rfl, rfl⟩
+
+/-! ## round 4: stronger statements about cycles and liveness -/
+
+/-- FULL refinement of a cycle (strengthens `round_events_refine_round`, which equates chains only):
+an undisturbed cycle on the event machine leaves exactly the NODE (`currReorg` included) and emits
+exactly the OBSERVATIONS (commits, reorg and new-head sends, in order) of `round` — the function the
+harness compares with the real synchroniser, commit by commit and notification by notification, on
+every static shape. Every variant, every source chain, every state without a running task. -/
+theorem round_events_refine_round_fully (cfg : Cfg) (src : Chain) (s : Impl) (ht : s.task = none) :
+    (Impl.run cfg s (roundEvents cfg src s.node.chain)).1.node = (round cfg src s.node).1 ∧
+    (Impl.run cfg s (roundEvents cfg src s.node.chain)).2 = (round cfg src s.node).2 :=
+  roundEvents_full cfg src s ht
+
+/-- … lifted to any number of cycles by induction: `k` undisturbed cycles = `runRounds k`, node and
+observations, and no task is left running. -/
+theorem rounds_events_refine_runRounds (cfg : Cfg) (src : Chain) (k : Nat) (s : Impl) (ht : s.task = none) :
+    (Impl.run cfg s (roundsEvents cfg src k s.node)).1.node = (runRounds cfg src k s.node).1 ∧
+    (Impl.run cfg s (roundsEvents cfg src k s.node)).2 = (runRounds cfg src k s.node).2 ∧
+    (Impl.run cfg s (roundsEvents cfg src k s.node)).1.task = none :=
+  roundsEvents_full cfg src k s ht
+
+/-- THE CODE AS IT IS NOW: a VALID block of an earlier chain of the source, still in flight when the
+source became stable (`StaleEv`: verified, not a block of the final chain, not a child of the final
+chain's head), delivered at ANY moment and in ANY state, keeps the invariant of the liveness proof
+(well-formed chain, no block of the source above a running task's `lastPossiblyValidHeight`) and
+lengthens the chain by at most one block. (Closes the case the liveness theorems left out; the
+excluded child-of-the-head case is the pure-truncation assumption.) -/
+theorem stale_block_keeps_invariant (u : List Blk) (src : Chain) (S : Setting u src) (s : Impl)
+    (I : LInv Cfg.asFound u src s) (e : Ev) (he : StaleEv u src e) (hb : s.node.chain.length + 1 < U64) :
+    LInv Cfg.asFound u src (s.step Cfg.asFound e).1 ∧
+      (s.step Cfg.asFound e).1.node.chain.length ≤ s.node.chain.length + 1 :=
+  stale_step S rfl rfl I e he hb
+
+/-- LIVENESS WITH STALE BLOCKS IN FLIGHT, THE CODE AS IT IS NOW. After the source became stable let
+ANY interleaving of honest events, events that change nothing and `m` deliveries of valid blocks of
+earlier chains happen (`Disturbed`), from any state satisfying the invariant (a revert task may be
+running); then every fair continuation with `k ≥ |source| + max(|node|, |source|) + m + 1`
+undisturbed cycles ends with `chain = source chain`. -/
+theorem liveness_with_stale_blocks_asFound (u : List Blk) (src : Chain) (S : Setting u src) (s : Impl)
+    (I : LInv Cfg.asFound u src s) (m : Nat) (pre : List Ev) (hpre : Disturbed Cfg.asFound u src s m pre)
+    (hb : max s.node.chain.length src.length + m + 1 < U64)
+    (k : Nat) (es : List Ev) (hfair : FairRun Cfg.asFound src (Impl.run Cfg.asFound s pre).1 k es)
+    (hk : src.length + max s.node.chain.length src.length + m + 1 ≤ k) :
+    (Impl.run Cfg.asFound s (pre ++ es)).1.node.chain = src :=
+  stale_then_fair_converges S rfl rfl hpre I hb hfair hk
+
+-- non-vacuity: the source had [x1, g] and is now stable on [y1, g]; the node holds [g]; the old block x1
+-- (valid, fetched before the reorg) arrives and IS STORED; six cycles later the node is on [y1, g]
+example :
+    let g : Blk := ⟨0, 1, 0, true, 0, 0⟩
+    let x1 : Blk := ⟨1, 2, 1, true, 0, 0⟩
+    let y1 : Blk := ⟨1, 12, 1, true, 0, 0⟩
+    let pre : List Ev := [.deliver 1 x1 false]
+    StaleEv [x1, y1, g] [y1, g] (.deliver 1 x1 false) ∧
+    Disturbed Cfg.asFound [x1, y1, g] [y1, g] (Impl.init [g]) 1 pre ∧
+    LInv Cfg.asFound [x1, y1, g] [y1, g] (Impl.init [g]) ∧
+    (Impl.run Cfg.asFound (Impl.init [g]) pre).1.node.chain = [x1, g] ∧
+    (Impl.run Cfg.asFound (Impl.init [g])
+      (pre ++ roundsEvents Cfg.asFound [y1, g] 6 (Impl.run Cfg.asFound (Impl.init [g]) pre).1.node)).1.node.chain = [y1, g] := by
+  have hst : StaleEv [⟨1, 2, 1, true, 0, 0⟩, ⟨1, 12, 1, true, 0, 0⟩, ⟨0, 1, 0, true, 0, 0⟩]
+      [⟨1, 12, 1, true, 0, 0⟩, ⟨0, 1, 0, true, 0, 0⟩] (.deliver 1 ⟨1, 2, 1, true, 0, 0⟩ false) := by
+    refine ⟨rfl, by decide, by decide, ?_⟩
+    intro hd tl h
+    injection h with h1 _
+    subst h1
+    decide
+  refine ⟨hst, Disturbed.stale _ _ _ 0 hst (Disturbed.done _ 0), ⟨⟨⟨rfl, rfl⟩, by decide, by decide, ?_, Or.inl rfl⟩, ?_⟩,
+    by decide, by decide⟩
+  · intro h; exact absurd h.length_le (by decide)
+  · intro lpv hl; cases hl
 
 /-! ## non-vacuity -/
 
